@@ -10,7 +10,6 @@ import (
 	"fmt"
 	"go/constant"
 	"go/types"
-	"sort"
 	"strings"
 
 	"golang.org/x/tools/go/ssa"
@@ -100,7 +99,6 @@ type Worker struct {
 	known   map[*Term]bool
 	model   Model
 	modelOK bool
-	pcVars  map[*Term]bool
 
 	prefix []dec
 	pos    int
@@ -120,12 +118,15 @@ type Worker struct {
 	knownLog  []knownUndo
 	curInstr  ssa.Instruction
 	lastModel Model
+	uf        map[string]string   // variable name -> parent (union-find over PC variables)
+	comp      map[string][]int    // root -> indices of PC conjuncts in the component
+	dirty     map[string]bool     // variables whose component the model no longer satisfies
 	st        jobStats
 	reached   []string
 
 	// per-path results
 	viols []Violation
-	newWork [][]dec
+	newWork []workAlt
 	errMsg string
 	pathKind string
 }
@@ -458,89 +459,6 @@ func (w *Worker) lookupKnown(c *Term) (bool, bool) {
 	return false, false
 }
 
-// addPC appends c to the path condition (no feasibility check).
-func (w *Worker) addPC(c *Term) {
-	if c.IsTrue() {
-		return
-	}
-	w.pc = append(w.pc, c)
-	w.recordKnown(c, true)
-	if w.S != nil {
-		w.S.Assert(c)
-	}
-	if w.modelOK && w.model.Eval(c) == 0 {
-		w.modelOK = false
-	}
-	for _, v := range c.Vars() {
-		w.pcVars[v] = true
-	}
-}
-
-func (w *Worker) allVars(extra ...*Term) []*Term {
-	seen := map[*Term]bool{}
-	var vs []*Term
-	for v := range w.pcVars {
-		seen[v] = true
-		vs = append(vs, v)
-	}
-	for _, e := range extra {
-		for _, v := range e.Vars() {
-			if !seen[v] {
-				seen[v] = true
-				vs = append(vs, v)
-			}
-		}
-	}
-	for _, n := range w.nondet {
-		if n.t != nil && n.t.Op == OpVar && !seen[n.t] {
-			seen[n.t] = true
-			vs = append(vs, n.t)
-		}
-	}
-	sort.Slice(vs, func(i, j int) bool { return vs[i].id < vs[j].id })
-	return vs
-}
-
-// feasible checks PC ∧ c, updating the cached model when it learns one.
-func (w *Worker) feasible(c *Term) Verdict {
-	if c.IsTrue() {
-		return Sat
-	}
-	if c.IsFalse() {
-		return Unsat
-	}
-	if w.modelOK && w.model.Eval(c) != 0 {
-		return Sat
-	}
-	w.st.feasQ++
-	v, m := w.S.CheckWithModel(w.allVars(c), c)
-	if v == Sat {
-		// the model satisfies PC ∧ c; keep it only if it is for the side we will take — caller decides
-		w.lastModel = m
-	}
-	if v == Unknown {
-		w.st.unknown++
-	}
-	return v
-}
-
-func (w *Worker) ensureModel() bool {
-	if w.modelOK {
-		return true
-	}
-	w.st.feasQ++
-	v, m := w.S.CheckWithModel(w.allVars())
-	if v == Sat {
-		w.model, w.modelOK = m, true
-		return true
-	}
-	if v == Unknown {
-		w.st.unknown++
-		w.inconclusive("solver unknown on path condition")
-	}
-	return false
-}
-
 func (w *Worker) inconclusive(msg string) {
 	panic(unsupportedErr{"INCONCLUSIVE: " + msg})
 }
@@ -585,28 +503,35 @@ func (w *Worker) decide(c *Term) bool {
 		panic(pathEnd{kind: "infeasible"})
 	}
 	var tv, fv Verdict
+	var altModel Model
 	if w.model.Eval(c) != 0 {
 		tv = Sat
-		fv = w.feasible(nc)
+		fv, altModel = w.feasibleM(nc)
 	} else {
 		fv = Sat
-		tv = w.feasible(c)
+		tv, altModel = w.feasibleM(c)
 	}
 	if tv == Unknown || fv == Unknown {
-		// unknown = keep both
+		// unknown = keep both sides
 		if tv == Unknown {
 			tv = Sat
 		}
 		if fv == Unknown {
 			fv = Sat
 		}
-		w.modelOK = false
+		altModel = nil
 	}
 	var take bool
 	switch {
 	case tv == Sat && fv == Sat:
 		alt := append(append([]dec{}, w.trace...), dec{K: 0})
-		w.newWork = append(w.newWork, alt)
+		var am Model
+		if w.model.Eval(c) != 0 {
+			am = altModel // model of PC ∧ ¬c
+		} else {
+			am = w.model // the current model satisfies ¬c
+		}
+		w.pushWork(alt, am)
 		take = true
 	case tv == Sat:
 		take = true
@@ -617,27 +542,17 @@ func (w *Worker) decide(c *Term) bool {
 	}
 	if take {
 		w.trace = append(w.trace, dec{K: 1})
+		if w.model.Eval(c) == 0 && altModel != nil {
+			w.model = altModel
+		}
 		w.addPC(c)
 	} else {
 		w.trace = append(w.trace, dec{K: 0})
+		if w.model.Eval(nc) == 0 && altModel != nil {
+			w.model = altModel
+		}
 		w.addPC(nc)
 	}
-	if !w.modelOK && w.lastModel != nil {
-		// the model from the feasibility query satisfies the side that was not the old model's
-		if w.lastModel.Eval(w.pc[len(w.pc)-1]) != 0 {
-			ok := true
-			for _, p := range w.pc {
-				if w.lastModel.Eval(p) == 0 {
-					ok = false
-					break
-				}
-			}
-			if ok {
-				w.model, w.modelOK = w.lastModel, true
-			}
-		}
-	}
-	w.lastModel = nil
 	return take
 }
 
@@ -666,7 +581,7 @@ func (w *Worker) choose(lo, hi int64) int64 {
 		v = lo
 		for k := hi; k > lo; k-- {
 			alt := append(append([]dec{}, w.trace...), dec{K: 2, V: k})
-			w.newWork = append(w.newWork, alt)
+			w.pushWork(alt, w.model)
 		}
 	}
 	w.trace = append(w.trace, dec{K: 2, V: v})
@@ -714,12 +629,10 @@ func (w *Worker) concretize(t *Term, what string) uint64 {
 		v := w.model.Eval(t)
 		k := w.B.Const(v, t.W)
 		eq := w.B.Eq(t, k)
-		saveModel := w.model
-		if fv := w.feasible(w.B.Not(eq)); fv != Unsat {
+		if fv, am := w.feasibleM(w.B.Not(eq)); fv != Unsat {
 			alt := append(append([]dec{}, w.trace...), dec{K: 4, V: int64(v)})
-			w.newWork = append(w.newWork, alt)
+			w.pushWork(alt, am)
 		}
-		w.model, w.lastModel = saveModel, nil
 		w.trace = append(w.trace, dec{K: 3, V: int64(v)})
 		w.addPC(eq)
 		return v
@@ -852,7 +765,7 @@ func (w *Worker) flush() {
 		} else if w.modelOK && w.model.Eval(q) != 0 {
 			v, m = Sat, w.model
 		} else {
-			v, m = w.S.CheckWithModel(w.allVars(q), q)
+			v, m = w.query(q)
 		}
 		switch v {
 		case Unknown:
